@@ -3,6 +3,7 @@
   Statements only (helper lemmas live in Lemmas/, the 128 per-square kernel checks in Props/C11gen/).
 -/
 import ChessVerif.Props.C11gen.All
+import ChessVerif.Lemmas.PawnUnion
 namespace Chess.Props
 
 /-- C11 (sliders): for every square and EVERY occupancy (all 2^64, not only subsets of the mask) the magic
@@ -48,6 +49,30 @@ theorem C11_pawn_partial (c sq : Nat) (hc : c ≤ 1) (hs : sq < 64) :
   match c, hc with
   | 0, _ => exact this.1
   | 1, _ => exact this.2
+
+def pawnLeaperOK : Bool :=
+  (List.range 64).all (fun sq => pawnAttacks 0 (sqBB sq) == Spec.leaperSet [(-1, 1), (1, 1)] sq &&
+                                  pawnAttacks 1 (sqBB sq) == Spec.leaperSet [(-1, -1), (1, -1)] sq)
+
+theorem pawnLeaperOK_true : pawnLeaperOK = true := by decide +kernel
+
+/-- C11 (pawns, full): for ANY set of pawns (every 64-bit board) and either colour, the shift-based attack set the engine
+    computes equals the union over the pawns of their two forward-diagonal squares on the board -/
+theorem C11_pawn (c : Nat) (bb : BB) (hc : c ≤ 1) (hb : bb < two64) : pawnAttacks c bb = Spec.pawnAttackSet c bb := by
+  have h := pawnLeaperOK_true
+  simp only [pawnLeaperOK, List.all_eq_true, List.mem_range, Bool.and_eq_true, beq_iff_eq] at h
+  have step : pawnAttacks c bb = orOver bb (fun s => pawnAttacks c (sqBB s)) (List.range 64) 0 := by
+    have := orOver_hom bb c (List.range 64) 0
+    rw [bb_as_union bb hb, pawnAttacks_zero] at this
+    exact this
+  rw [step]
+  unfold Spec.pawnAttackSet
+  apply orOver_congr
+  intro s hs
+  have hs' : s < 64 := by simpa using hs
+  match c, hc with
+  | 0, _ => exact (h s hs').1
+  | 1, _ => exact (h s hs').2
 
 def linesRowOK (a : Nat) : Bool :=
   (List.range 64).all (fun b => lines a b == Spec.betweenIncl a b && fullLines a b == Spec.fullLine a b)
